@@ -239,6 +239,9 @@ func (rb *RingBuffer) Read(size int) (data []byte, err error) {
 
 // ReadMultipleOf will return a multiple (possibly 0) of chunksize bytes.
 func (rb *RingBuffer) ReadMultipleOf(chunksize int) (data []byte, err error) {
+	if chunksize <= 0 {
+		return nil, fmt.Errorf("Cannot call ReadMultipleOf(%d), want > 0", chunksize)
+	}
 	if uint64(chunksize) >= rb.size {
 		return nil, fmt.Errorf("Cannot call ReadMultipleOf(%d), want < %d", chunksize,
 			rb.size)
@@ -284,9 +287,17 @@ func (rb *RingBuffer) BytesReadable() int {
 // DiscardStride removes readable bytes up to a multiple of stride. This empties the buffer except
 // for a runt section with size less than stride bytes long
 func (rb *RingBuffer) DiscardStride(stride uint64) (err error) {
+	if stride == 0 {
+		return fmt.Errorf("Cannot call DiscardStride(0), want > 0")
+	}
 	newRp := rb.desc.writePointer
 	if newRp%stride > 0 {
 		newRp -= newRp % stride
+	}
+	// Never move the read pointer backwards: that would deliver already-read bytes again.
+	// (Then fewer than stride bytes are readable, so nothing needs to be discarded.)
+	if newRp < rb.desc.readPointer {
+		return nil
 	}
 	rb.desc.readPointer = newRp
 	return nil
